@@ -342,20 +342,20 @@ example : ((lrun exParams true exRlock LState.init
     (fun s => s.hist.map Prod.snd)) = some [.ok, .val (some 7), .empty] := by decide
 
 /-! ### The translated source (Gen/C12.lean, `namespace Tr` for int = 64 bits, `Tr32` for int = 32 bits, rewritten from
-deque.go on every run) equals the model's index arithmetic, for all inputs (no bound on the buffer size). -/
+deque.go on every run) equals the model's index arithmetic, for all inputs (no bound on the buffer size).
+The proofs normalise (`toNat`, side conditions discharged by `omega`, then equality up to associativity and commutativity
+of `&&&` / `+`), so harmless rewrites of the source — swapped operands, an extra local — still prove. -/
 section Translated
 open Fatchoy.Gen.C12
-
+set_option linter.unusedSimpArgs false
 
 /-- `Tr.Deque_next` (int = 64 bits) is the model's `mask d (i + 1)`: `landMask` with the buffer's mask -/
 theorem C12_tr_next (len i : BitVec 64) (hl : 0 < len.toNat) (hi : i.toNat + 1 < 2 ^ 64) :
     (Tr.Deque_next len i).toNat = landMask ((i.toNat : Int) + 1) (len.toNat - 1) := by
   have e : ((i.toNat : Int) + 1) = ((i.toNat + 1 : Nat) : Int) := by omega
   rw [e, landMask_ofNat]
-  have h1 : (i.toNat + 1) % 18446744073709551616 = i.toNat + 1 := Nat.mod_eq_of_lt (by omega)
-  have h2 : (18446744073709551616 - 1 + len.toNat) % 18446744073709551616 = len.toNat - 1 := by
-    have := len.isLt; omega
-  simp [Tr.Deque_next, BitVec.toNat_sub, BitVec.toNat_add, h1, h2]
+  simp (disch := omega) [Tr.Deque_next, BitVec.toNat_sub_of_le (bv_one_le len hl), BitVec.toNat_add,
+    Nat.mod_eq_of_lt, Nat.add_comm] <;> ac_rfl
 
 /-- `Tr.At_pos` / `Tr.Set_pos` are the model's `mask d (head + i)` -/
 theorem C12_tr_at (len head i : BitVec 64) (hl : 0 < len.toNat) (hi : head.toNat + i.toNat < 2 ^ 64) :
@@ -363,50 +363,45 @@ theorem C12_tr_at (len head i : BitVec 64) (hl : 0 < len.toNat) (hi : head.toNat
     (Tr.Set_pos head len i).toNat = landMask ((head.toNat : Int) + (i.toNat : Int)) (len.toNat - 1) := by
   have e : ((head.toNat : Int) + (i.toNat : Int)) = ((head.toNat + i.toNat : Nat) : Int) := by omega
   rw [e, landMask_ofNat]
-  have h1 : (head.toNat + i.toNat) % 18446744073709551616 = head.toNat + i.toNat := Nat.mod_eq_of_lt (by omega)
-  have h2 : (18446744073709551616 - 1 + len.toNat) % 18446744073709551616 = len.toNat - 1 := by
-    have := len.isLt; omega
-  constructor <;> simp [Tr.At_pos, Tr.Set_pos, BitVec.toNat_sub, BitVec.toNat_add, h1, h2]
+  constructor <;>
+    (simp (disch := omega) [Tr.At_pos, Tr.Set_pos, BitVec.toNat_sub_of_le (bv_one_le len hl), BitVec.toNat_add,
+      Nat.mod_eq_of_lt, Nat.add_comm] <;> ac_rfl)
 
 /-- `Tr.Deque_prev` is the model's `mask d (i - 1)`, also at `i = 0` where `i - 1` is negative -/
 theorem C12_tr_prev (len i : BitVec 64) (hl : 0 < len.toNat) :
     (Tr.Deque_prev len i).toNat = landMask ((i.toNat : Int) - 1) (len.toNat - 1) := by
-  have h2 : (18446744073709551616 - 1 + len.toNat) % 18446744073709551616 = len.toNat - 1 := by
-    have := len.isLt; omega
   by_cases h0 : i.toNat = 0
   · have : i = 0#64 := BitVec.eq_of_toNat_eq (by simpa using h0)
     subst this
     have hm : len.toNat - 1 < 2 ^ 64 := by have := len.isLt; omega
-    simp [Tr.Deque_prev, BitVec.toNat_sub, h2, landMask]
-    show 18446744073709551615 &&& (len.toNat - 1) = len.toNat - 1 - (0 &&& (len.toNat - 1))
-    rw [Nat.zero_and, Nat.sub_zero, Nat.and_comm]
-    exact (Nat.and_two_pow_sub_one_eq_mod (len.toNat - 1) 64).trans (Nat.mod_eq_of_lt hm)
+    have key : (len.toNat - 1) &&& 18446744073709551615 = len.toNat - 1 :=
+      (Nat.and_two_pow_sub_one_eq_mod (len.toNat - 1) 64).trans (Nat.mod_eq_of_lt hm)
+    have key' : 18446744073709551615 &&& (len.toNat - 1) = len.toNat - 1 := by rw [Nat.and_comm]; exact key
+    show _ = len.toNat - 1 - (0 &&& (len.toNat - 1))
+    simp (disch := omega) [Tr.Deque_prev, BitVec.toNat_sub_of_le (bv_one_le len hl), key, key']
   · have e : ((i.toNat : Int) - 1) = ((i.toNat - 1 : Nat) : Int) := by omega
     rw [e, landMask_ofNat]
-    have h1 : (18446744073709551616 - 1 + i.toNat) % 18446744073709551616 = i.toNat - 1 := by
-      have := i.isLt; omega
-    simp [Tr.Deque_prev, BitVec.toNat_sub, h1, h2]
+    simp (disch := omega) [Tr.Deque_prev, BitVec.toNat_sub_of_le (bv_one_le len hl),
+      BitVec.toNat_sub_of_le (bv_one_le i (by omega))] <;> ac_rfl
 
 /-- `Tr.shrink_cond` is the condition of the model's `shrinkIfExcess` (sizes below 2^61: no bit is shifted out) -/
 theorem C12_tr_shrink (count minCap len : BitVec 64) (hc : count.toNat < 2 ^ 61)
     (hm : minCap.toNat < 2 ^ 63) (hl : len.toNat < 2 ^ 63) :
     Tr.shrink_cond count minCap len =
       decide (len.toNat > minCap.toNat ∧ count.toNat <<< params.shrinkShift = len.toNat) := by
-  have h1 : count.toNat * 4 % 18446744073709551616 = count.toNat * 4 := Nat.mod_eq_of_lt (by omega)
   have e1 : minCap.toInt = minCap.toNat := BitVec.toInt_eq_toNat_of_lt (by omega)
   have e2 : len.toInt = len.toNat := BitVec.toInt_eq_toNat_of_lt (by omega)
   rw [Bool.eq_iff_iff]
-  simp [Tr.shrink_cond, BitVec.slt, e1, e2, params, Gen.C12.shrinkShift, Nat.shiftLeft_eq, BitVec.toNat_eq, h1]
+  simp (disch := omega) [Tr.shrink_cond, BitVec.slt, e1, e2, params, Gen.C12.shrinkShift, Nat.shiftLeft_eq,
+    BitVec.toNat_eq, Nat.mod_eq_of_lt, and_comm, eq_comm (a := len.toNat)]
 
 /-- `Tr32.Deque_next` (int = 32 bits) is the model's `mask d (i + 1)`: `landMask` with the buffer's mask -/
 theorem C12_tr32_next (len i : BitVec 32) (hl : 0 < len.toNat) (hi : i.toNat + 1 < 2 ^ 32) :
     (Tr32.Deque_next len i).toNat = landMask ((i.toNat : Int) + 1) (len.toNat - 1) := by
   have e : ((i.toNat : Int) + 1) = ((i.toNat + 1 : Nat) : Int) := by omega
   rw [e, landMask_ofNat]
-  have h1 : (i.toNat + 1) % 4294967296 = i.toNat + 1 := Nat.mod_eq_of_lt (by omega)
-  have h2 : (4294967296 - 1 + len.toNat) % 4294967296 = len.toNat - 1 := by
-    have := len.isLt; omega
-  simp [Tr32.Deque_next, BitVec.toNat_sub, BitVec.toNat_add, h1, h2]
+  simp (disch := omega) [Tr32.Deque_next, BitVec.toNat_sub_of_le (bv_one_le len hl), BitVec.toNat_add,
+    Nat.mod_eq_of_lt, Nat.add_comm] <;> ac_rfl
 
 /-- `Tr32.At_pos` / `Tr32.Set_pos` are the model's `mask d (head + i)` -/
 theorem C12_tr32_at (len head i : BitVec 32) (hl : 0 < len.toNat) (hi : head.toNat + i.toNat < 2 ^ 32) :
@@ -414,40 +409,37 @@ theorem C12_tr32_at (len head i : BitVec 32) (hl : 0 < len.toNat) (hi : head.toN
     (Tr32.Set_pos head len i).toNat = landMask ((head.toNat : Int) + (i.toNat : Int)) (len.toNat - 1) := by
   have e : ((head.toNat : Int) + (i.toNat : Int)) = ((head.toNat + i.toNat : Nat) : Int) := by omega
   rw [e, landMask_ofNat]
-  have h1 : (head.toNat + i.toNat) % 4294967296 = head.toNat + i.toNat := Nat.mod_eq_of_lt (by omega)
-  have h2 : (4294967296 - 1 + len.toNat) % 4294967296 = len.toNat - 1 := by
-    have := len.isLt; omega
-  constructor <;> simp [Tr32.At_pos, Tr32.Set_pos, BitVec.toNat_sub, BitVec.toNat_add, h1, h2]
+  constructor <;>
+    (simp (disch := omega) [Tr32.At_pos, Tr32.Set_pos, BitVec.toNat_sub_of_le (bv_one_le len hl), BitVec.toNat_add,
+      Nat.mod_eq_of_lt, Nat.add_comm] <;> ac_rfl)
 
 /-- `Tr32.Deque_prev` is the model's `mask d (i - 1)`, also at `i = 0` where `i - 1` is negative -/
 theorem C12_tr32_prev (len i : BitVec 32) (hl : 0 < len.toNat) :
     (Tr32.Deque_prev len i).toNat = landMask ((i.toNat : Int) - 1) (len.toNat - 1) := by
-  have h2 : (4294967296 - 1 + len.toNat) % 4294967296 = len.toNat - 1 := by
-    have := len.isLt; omega
   by_cases h0 : i.toNat = 0
   · have : i = 0#32 := BitVec.eq_of_toNat_eq (by simpa using h0)
     subst this
     have hm : len.toNat - 1 < 2 ^ 32 := by have := len.isLt; omega
-    simp [Tr32.Deque_prev, BitVec.toNat_sub, h2, landMask]
-    show 4294967295 &&& (len.toNat - 1) = len.toNat - 1 - (0 &&& (len.toNat - 1))
-    rw [Nat.zero_and, Nat.sub_zero, Nat.and_comm]
-    exact (Nat.and_two_pow_sub_one_eq_mod (len.toNat - 1) 32).trans (Nat.mod_eq_of_lt hm)
+    have key : (len.toNat - 1) &&& 4294967295 = len.toNat - 1 :=
+      (Nat.and_two_pow_sub_one_eq_mod (len.toNat - 1) 32).trans (Nat.mod_eq_of_lt hm)
+    have key' : 4294967295 &&& (len.toNat - 1) = len.toNat - 1 := by rw [Nat.and_comm]; exact key
+    show _ = len.toNat - 1 - (0 &&& (len.toNat - 1))
+    simp (disch := omega) [Tr32.Deque_prev, BitVec.toNat_sub_of_le (bv_one_le len hl), key, key']
   · have e : ((i.toNat : Int) - 1) = ((i.toNat - 1 : Nat) : Int) := by omega
     rw [e, landMask_ofNat]
-    have h1 : (4294967296 - 1 + i.toNat) % 4294967296 = i.toNat - 1 := by
-      have := i.isLt; omega
-    simp [Tr32.Deque_prev, BitVec.toNat_sub, h1, h2]
+    simp (disch := omega) [Tr32.Deque_prev, BitVec.toNat_sub_of_le (bv_one_le len hl),
+      BitVec.toNat_sub_of_le (bv_one_le i (by omega))] <;> ac_rfl
 
 /-- `Tr32.shrink_cond` is the condition of the model's `shrinkIfExcess` (sizes below 2^29: no bit is shifted out) -/
 theorem C12_tr32_shrink (count minCap len : BitVec 32) (hc : count.toNat < 2 ^ 29)
     (hm : minCap.toNat < 2 ^ 31) (hl : len.toNat < 2 ^ 31) :
     Tr32.shrink_cond count minCap len =
       decide (len.toNat > minCap.toNat ∧ count.toNat <<< params.shrinkShift = len.toNat) := by
-  have h1 : count.toNat * 4 % 4294967296 = count.toNat * 4 := Nat.mod_eq_of_lt (by omega)
   have e1 : minCap.toInt = minCap.toNat := BitVec.toInt_eq_toNat_of_lt (by omega)
   have e2 : len.toInt = len.toNat := BitVec.toInt_eq_toNat_of_lt (by omega)
   rw [Bool.eq_iff_iff]
-  simp [Tr32.shrink_cond, BitVec.slt, e1, e2, params, Gen.C12.shrinkShift, Nat.shiftLeft_eq, BitVec.toNat_eq, h1]
+  simp (disch := omega) [Tr32.shrink_cond, BitVec.slt, e1, e2, params, Gen.C12.shrinkShift, Nat.shiftLeft_eq,
+    BitVec.toNat_eq, Nat.mod_eq_of_lt, and_comm, eq_comm (a := len.toNat)]
 
 /-- non-vacuity / test (samples): a 16-slot buffer, wrap at both ends -/
 example : Tr.Deque_prev 16#64 0#64 = 15#64 ∧ Tr.Deque_next 16#64 15#64 = 0#64 ∧ Tr.At_pos 14#64 16#64 5#64 = 3#64 ∧
